@@ -153,6 +153,8 @@ type point struct {
 	// running thread still enabled (then alternatives >0 are preemptions)
 	runnable bool
 	label    string
+	// costs, when set, gives the deviation cost of every alternative explicitly
+	costs []int
 }
 
 // Sched is one execution's scheduler.
@@ -199,7 +201,11 @@ func newSched(prefix []int, horizon int, keepTrace bool) *Sched {
 }
 
 // take consumes the next choice among n alternatives.
-func (s *Sched) take(n int, env, free, runnable bool, label string) int {
+func (s *Sched) takeCosts(costs []int, env bool, label string) int {
+	return s.take(len(costs), env, false, false, label, costs...)
+}
+
+func (s *Sched) take(n int, env, free, runnable bool, label string, costs ...int) int {
 	i := len(s.x.points)
 	c := 0
 	if i < len(s.prefix) {
@@ -210,6 +216,9 @@ func (s *Sched) take(n int, env, free, runnable bool, label string) int {
 		}
 	}
 	pt := point{n: n, chosen: c, env: env, free: free, runnable: runnable, label: label}
+	if len(costs) == n {
+		pt.costs = costs
+	}
 	if s.visited != nil && i >= len(s.prefix) && !s.pruned {
 		k := s.stateKey(env)
 		if best, ok := s.visited[k]; ok && best <= s.used {
@@ -432,6 +441,47 @@ type runtimeError string
 
 func (e runtimeError) Error() string { return string(e) }
 
+// timerPending says whether ch is a timer that has not fired and is not yet due.
+func (s *Sched) timerPending(ch *chanState) bool {
+	return ch != nil && ch.timer && !ch.fired && s.now.Before(ch.wake)
+}
+
+// timeDriven says whether t can only proceed by letting virtual time pass
+// (a sleep, a receive on a timer, a select whose only ready cases are timers
+// that are not yet due).  By default time passes only when nothing else can
+// run; letting such a thread go earlier is a deviation ("the timer lands first").
+func (s *Sched) timeDriven(t *thread) bool {
+	o := t.pend
+	if o == nil {
+		return false
+	}
+	switch o.kind {
+	case opSleep:
+		return s.now.Before(o.wake)
+	case opRecv:
+		return s.timerPending(o.ch)
+	case opSelect:
+		if o.hasDefault {
+			return false
+		}
+		timer := false
+		for _, c := range o.cases {
+			if c.ch == nil {
+				continue
+			}
+			if !c.send && s.timerPending(c.ch) {
+				timer = true
+				continue
+			}
+			if (c.send && s.sendReady(t, c.ch)) || (!c.send && s.recvReady(t, c.ch)) {
+				return false
+			}
+		}
+		return timer
+	}
+	return false
+}
+
 func (s *Sched) enabled(t *thread) bool {
 	if t.done || t.pend == nil {
 		return false
@@ -585,10 +635,26 @@ func (s *Sched) apply(t *thread) {
 		}
 		t.selIdx = -1
 		if len(ready) > 0 {
+			// Go picks among the ready cases at random: all are explored; a timer
+			// that is not yet due is taken only as a deviation when another case is ready
+			var nowReady, later []int
+			for _, i := range ready {
+				if !o.cases[i].send && s.timerPending(o.cases[i].ch) {
+					later = append(later, i)
+				} else {
+					nowReady = append(nowReady, i)
+				}
+			}
+			ready = append(nowReady, later...)
 			k := 0
 			if len(ready) > 1 {
-				// Go picks among the ready cases at random: all are explored
-				k = s.take(len(ready), true, true, false, "select")
+				costs := make([]int, len(ready))
+				for j := range ready {
+					if j >= len(nowReady) && len(nowReady) > 0 {
+						costs[j] = 1
+					}
+				}
+				k = s.takeCosts(costs, true, "select")
 			}
 			i := ready[k]
 			c := o.cases[i]
@@ -794,20 +860,27 @@ func (s *Sched) run(body func()) *X {
 			s.x.End = EndStopped
 			break
 		}
-		// canonical enabled list: previously running thread first, then by id
+		// canonical enabled list: previously running thread first, then by id,
+		// then low-priority harness threads, then threads that need time to pass
 		var en []*thread
 		runnable := false
-		if s.last != nil && s.enabled(s.last) {
+		if s.last != nil && s.enabled(s.last) && !s.timeDriven(s.last) {
 			en = append(en, s.last)
 			runnable = true
 		}
 		for _, t := range s.threads {
-			if t != s.last && !t.low && s.enabled(t) {
+			if t != s.last && !t.low && s.enabled(t) && !s.timeDriven(t) {
 				en = append(en, t)
 			}
 		}
 		for _, t := range s.threads {
-			if t != s.last && t.low && s.enabled(t) {
+			if t != s.last && t.low && s.enabled(t) && !s.timeDriven(t) {
+				en = append(en, t)
+			}
+		}
+		normal := len(en)
+		for _, t := range s.threads {
+			if s.enabled(t) && s.timeDriven(t) {
 				en = append(en, t)
 			}
 		}
@@ -832,7 +905,24 @@ func (s *Sched) run(body func()) *X {
 		steps++
 		c := 0
 		if len(en) > 1 {
-			c = s.take(len(en), false, false, runnable, "sched")
+			// costs: switching away from a thread that could go on is a preemption;
+			// letting time pass while something else could run is a deviation too
+			costs := make([]int, len(en))
+			for i := range en {
+				switch {
+				case i == 0:
+				case i < normal:
+					if runnable {
+						costs[i] = 1
+					}
+				default:
+					if normal > 0 {
+						costs[i] = 1
+					}
+				}
+			}
+			c = s.takeCosts(costs, false, "sched")
+			s.x.points[len(s.x.points)-1].runnable = runnable
 		}
 		t := en[c]
 		s.apply(t)
